@@ -393,6 +393,8 @@ func (e *Exec) ghostDefault(k string, other Val) (Val, bool) {
 		return other, true
 	case strings.HasPrefix(k, "g:"):
 		return Val{T: e.sc.Const("ghost0:"+strings.TrimPrefix(k, "g:"), other.T.Sort), GT: other.GT}, true
+	case strings.HasPrefix(k, "set:"):
+		return Val{T: e.sc.Const("set0:"+strings.TrimPrefix(k, "set:"), other.T.Sort)}, true
 	case k == "alloc":
 		return Val{T: e.sc.Const("alloc0", SInt)}, true
 	case k == "closed":
